@@ -230,6 +230,15 @@ def run(case, sim):
         oks = [s for s, m in tx if isinstance(m, list) and m and m[0] == "OK"]
         closed_subs = set()
         for fr in c.frames:
+            if fr.get("reg_after") is not None and is_alive:
+                lost = set(fr.get("reg_before") or []) - set(fr["reg_after"])
+                mm = parse(fr["text"])
+                verb = mm[0] if isinstance(mm, list) and mm else None
+                if len(lost) > 1 or (lost and verb not in ("CLOSE", "REQ")):
+                    viol.append({"cls": "frame-dropped-subscriptions", "sig": "frame-dropped-subscriptions|%s|%s|%s" % (
+                        backend, role, verb),
+                                 "detail": {"frame": fr["text"][:100], "lost": sorted(lost)}})
+        for fr in c.frames:
             m = parse(fr["text"])
             kind = kinds.get((c.idx, fr["i"]), "?")
             wellformed_cmd = kind in ("probe", "good")
